@@ -23,9 +23,44 @@ def _sid_sources(f):
                 seen.add(x.id)
                 out.add(x.id)
                 for (_, v) in name_defs(f, x.id):
-                    if isinstance(v, ast.IfExp):
+                    if isinstance(v, ast.AST):
                         todo.append(v)
     return out
+
+
+def _reporting_only(f, name):
+    """Every read of local `name` is inside a progress/report statement (print, *.write to stderr/stdout) or its
+    own update: its value cannot reach a tree."""
+    for st in walk_own(f.node):
+        if not isinstance(st, ast.stmt) or isinstance(st, (ast.If, ast.For, ast.While, ast.With, ast.Try)):
+            if isinstance(st, (ast.If, ast.While)):
+                if any(isinstance(x, ast.Name) and x.id == name for x in ast.walk(st.test)):
+                    # a test on the counter that only guards reporting statements
+                    body = list(st.body) + list(st.orelse)
+                    if not all(_is_report(b) for b in body):
+                        return False
+            elif isinstance(st, ast.For):
+                if any(isinstance(x, ast.Name) and x.id == name for x in ast.walk(st.iter)):
+                    return False
+            continue
+        reads = [x for x in ast.walk(st) if isinstance(x, ast.Name) and x.id == name and isinstance(x.ctx, ast.Load)]
+        if not reads:
+            continue
+        if _is_report(st):
+            continue
+        if isinstance(st, ast.AugAssign) and isinstance(st.target, ast.Name) and st.target.id == name:
+            continue
+        if isinstance(st, ast.Assign) and all(isinstance(t, ast.Name) and t.id == name for t in st.targets):
+            continue
+        return False
+    return True
+
+
+def _is_report(st):
+    if isinstance(st, ast.Expr) and isinstance(st.value, ast.Call):
+        fn = unparse(st.value.func)
+        return fn == 'print' or fn in ('sys.stderr.write', 'sys.stdout.write', 'sys.stderr.flush', 'sys.stdout.flush')
+    return isinstance(st, ast.Pass)
 
 
 def _writes_name(cfg, n, name):
@@ -81,6 +116,8 @@ def r_reader_state(prog, tier):
             if inside:
                 cand[name] = (outside, inside)
         for name, (outside, inside) in sorted(cand.items()):
+            if name not in cross and _reporting_only(f, name):
+                cross[name] = 'only read by progress/report statements: its value cannot reach a tree'
             if name in cross:
                 obs.append(Ob('R-READER-STATE', f.fq, '`%s` carries over between sentences by design' % name, True,
                               'CROSS-SENTENCE table: ' + cross[name], construct='cross:' + name, nontrivial=False,
